@@ -7,7 +7,7 @@ case = {
   "method": "GET" | ..., "version": "1.1" | "1.0", "protocol": "websocket" | null | other   (h2 `:protocol`),
   "app": [script steps]  (harness.core.runner.make_app),
   "client": [ ["msg", kind, [fragments latin-1], [[ctl…] per fragment]] | ["ping", p] | ["pong", p] | ["close", code|null]
-              | ["flush"] | ["reply_close"] | ["eof"] | ["reset"] | ["sleep", seconds] ],
+              | ["flush"] | ["reply_close"] | ["eof"] | ["reset"] | ["fail_writes"] | ["sleep", seconds] ],
   "seg": ["one"] | ["bytes"] | ["cuts", [offsets into each flushed byte string]] | ["k", n, seed],
 }
 Frames accumulate until "flush" (or a non-frame action); each flushed string is cut according to `seg`, every piece is
@@ -149,6 +149,9 @@ def run_session(case: dict) -> dict:
                 if io.closed_at is None:
                     await io.eof()
                 await absorb(True)
+            elif k == "fail_writes":
+                # from now on nothing the server writes gets through (the peer is gone); what is pending is still delivered
+                io.fail_writes()
             elif k == "reset":
                 await flush()
                 if io.closed_at is None:
